@@ -716,9 +716,6 @@ class DAG(BaseDAG[P, RVDAG]):
             def to_subdag_id(id_: str) -> str:
                 return ".".join(node.DAG_PREFIX + [id_])
 
-            # only the ExecNodes of the SubDAG must be affected by the is_active
-            is_active = False if ARG_NAME_ACTIVATE not in kwargs else kwargs[ARG_NAME_ACTIVATE]
-
             input_uxns = [UsageExecNode(to_subdag_id(uxn.id), uxn.key) for uxn in self.input_uxns]
 
             # provided args to the subdag
@@ -792,7 +789,7 @@ class DAG(BaseDAG[P, RVDAG]):
                             to_subdag_id(exec_node.active.id), exec_node.active.key
                         )
 
-                    if is_active is not False:
+                    if ARG_NAME_ACTIVATE in kwargs:
                         if exec_node.active is not None:
                             raise RuntimeError(
                                 f"Trying to set active status for ExecNode {id_} in SubDAG {self.qualname} "
